@@ -189,9 +189,12 @@ NewAnn(v)   == [f |-> v, c |-> CmOf(pend),
                 h |-> \E i \in 1..Len(pend) : IsCm(pend[i]) /\ \E j \in (i + 1)..Len(pend) : pend[j] = NL]
 KeepX       == UNCHANGED <<ann, pend, cknown, reform, khid>>
 XAppend(v)      == AAppend(v) /\ ann' = Append(ann, NewAnn(v)) /\ pend' = <<>> /\ UNCHANGED <<cknown, reform, khid>>
+\* removing a value may leave the tokens in front of it to the NEXT value (C11: "delete to the right"): its
+\* comment lines are then unknown (cknown) and it inherits a hidden separator
+AnnDel(an, i)   == LET d == LDel(an, i) IN IF i <= Len(d) THEN [d EXCEPT ![i].h = an[i].h \/ an[i + 1].h] ELSE d
 XRemove(v)      == /\ ARemove(v)
                    /\ IF LHas(vals, v)
-                      THEN /\ ann' = LDel(ann, LFirst(vals, v)) /\ cknown' = FALSE
+                      THEN /\ ann' = AnnDel(ann, LFirst(vals, v)) /\ cknown' = FALSE
                            /\ pend' = (IF Len(vals) = 1 THEN <<>> ELSE pend)
                       ELSE UNCHANGED <<ann, pend, cknown>>
                    /\ UNCHANGED <<reform, khid>>
@@ -199,7 +202,7 @@ XReplace(v, w)  == /\ AReplace(v, w)
                    /\ ann' = (IF LHas(vals, v) THEN [ann EXCEPT ![LFirst(vals, v)].f = w] ELSE ann)
                    /\ UNCHANGED <<pend, cknown, reform, khid>>
 XRefSet(i, w)   == ARefSet(i, w) /\ ann' = [ann EXCEPT ![i].f = w] /\ UNCHANGED <<pend, cknown, reform, khid>>
-XRefRemove(i)   == /\ ARefRemove(i) /\ ann' = LDel(ann, i) /\ cknown' = FALSE
+XRefRemove(i)   == /\ ARefRemove(i) /\ ann' = AnnDel(ann, i) /\ cknown' = FALSE
                    /\ pend' = (IF Len(vals) = 1 THEN <<>> ELSE pend) /\ UNCHANGED <<reform, khid>>
 XAppendSep      == AAppendSep /\ KeepX
 XAppendNl       == /\ AAppendNl /\ pend' = (IF tail = "none" /\ pend # <<>> THEN Append(pend, NL) ELSE pend)
